@@ -154,6 +154,10 @@ func correspondNorm(op, impl, what string, k *kase, norm func(string) string) {
 	corrQ = append(corrQ, corr{op: op, impl: impl, k: k, what: what, norm: norm})
 }
 
+// decisive: correspondence ops whose model function is, by a theorem of the property, the property's own specification;
+// a disagreement on such an op is a concrete input on which the property fails, not only a broken tie
+var decisive = map[byte]string{}
+
 func flushCorr() {
 	if len(corrQ) == 0 {
 		return
@@ -177,7 +181,11 @@ func flushCorr() {
 			m, im = c.norm(m), c.norm(im)
 		}
 		if m != im {
-			fail(failure{Stream: "correspondence", What: c.what, Case: c.k, Op: c.op, Impl: im, Model: m})
+			if why, ok := decisive[c.op[0]]; ok {
+				fail(failure{Stream: "oracle", What: why + " [" + c.what + "]", Case: c.k, Op: c.op, Impl: im, Expected: m, Model: m})
+			} else {
+				fail(failure{Stream: "correspondence", What: c.what, Case: c.k, Op: c.op, Impl: im, Model: m})
+			}
 		}
 	}
 	corrQ = nil
